@@ -471,7 +471,10 @@ def main():
     # ---- evidence ---------------------------------------------------------------------------
     thms = info.get("theorems", [])
     disch = info.get("discharged_theorems", [])
-    corr_ok = info.get("driver_built") and not any(b["kind"] == "correspondence" for b in broken) and len(cases) > 0
+    # the correspondence obligation: model and code agree on every case that no LISTED finding explains
+    corr_attributed = sum(1 for p, _, _ in disagreements if attributed(p))
+    corr_ok = info.get("driver_built") and len(cases) > 0 and \
+        not any(b["kind"] == "correspondence" for b in (unattributed_broken if not violations else broken))
     obligations = len(thms) + 1
     discharged = len(disch) + (1 if corr_ok else 0)
     samples = [sexp.dumps(p)[:600] for p in (cases[len(corpus):len(corpus) + 3] + cases[-2:])]
@@ -485,7 +488,8 @@ def main():
                             + list(getattr(mod, "MODELLED", [])),
             "theorems": thms, "theorems_discharged": disch,
             "correspondence": {"name": f"corr:{pid}/" + getattr(mod, "CORR_NAME", "model-vs-code"),
-                               "cases": len(cases), "corpus_cases": len(corpus), "disagreements": len(disagreements)},
+                               "cases": len(cases), "corpus_cases": len(corpus), "disagreements": len(disagreements),
+                               "disagreements_explained_by_listed_findings": corr_attributed},
             "programs": len(cases), "disagreements_checked": len(disagreements),
             "evaluations": len(cases), "distinct_nontrivial": len(nontrivial),
             "rule": getattr(mod, "RULE", ""), "samples": samples, "distribution": tags,
